@@ -396,7 +396,7 @@ func vfRunRTStorm(_ *testing.T, spec *vfSpec, res *vfRes) {
 				for {
 					n, _, err := s.ReadSCTP(buf)
 					if err != nil {
-						if errors.Is(err, os.ErrDeadlineExceeded) {
+						if errors.Is(err, ErrReadDeadlineExceeded) {
 							_ = s.SetReadDeadline(time.Time{})
 
 							continue
